@@ -38,7 +38,7 @@ StepT ==
   /\ i < Len(T.steps)
   /\ LET s == T.steps[i + 1] IN
      \* a timestamp passed while a file is open is not looked at (l.228): the label of the model is the one without
-     /\ NextL([a |-> s.l[1], o |-> s.l[2], x |-> s.l[3], y |-> IF s.l[1] = "write" /\ wfile # 0 THEN 0 ELSE s.l[4]])
+     /\ NextL([a |-> s.l[1], o |-> s.l[2], x |-> s.l[3], y |-> IF s.l[1] \in {"write", "writenf"} /\ wfile # 0 THEN 0 ELSE s.l[4]])
      /\ Proj' = s.obs
      /\ s.chunk = <<0 - 1>> \/ s.chunk = ev'.chunk              \* <<-1>>: read() raised (torn json line)
      /\ s.viol = <<"?">> \/ ToSet(s.viol) = Viol                 \* <<"?">>: monitor verdict not comparable
